@@ -319,6 +319,27 @@ class CfgCase(base.CaseBase):
     def run_native(self, args):
         return self.run(args['w'], args['rw'])
 
+    PROBES = [(79, 71), (1, 1), (7, 7), (12, 12), (20, 20), (33, 33), (40, 30), (60, 60), (79, 79),
+              (79, 20), (120, 120), (200, 200), (25, 12), (50, 50)]
+
+    def native_probes(self):
+        """Concrete configurations of this case's slice for the native
+        cross-check (vf.base.native_crosscheck)."""
+        out = []
+        for w, rw in self.PROBES + list(self.extra_probes()):
+            try:
+                ok = self.pre(w, rw)
+            except Exception:
+                ok = False
+            if ok:
+                out.append({'w': w, 'rw': rw})
+            if len(out) >= 6:
+                break
+        return out
+
+    def extra_probes(self):
+        return ()
+
 
 def cfg_family(name, make):
     return base.Family(name, h_cfg, h_cfg_twin, make, install)
